@@ -39,7 +39,7 @@ def find_windows_path(data: bytes) -> list[Node]:
         obfuscation = "windows.dotpath" if len(path) < length else ""
         children = []
         segments = path.split(b"\\")
-        if path.startswith((Rb"\\.", Rb"\\?")):
+        if path.startswith((b"\\\\.\\", b"\\\\?\\")):
             path_type = "windows.device.path"
             if segments[3].upper() == b"UNC":
                 hostname = segments[4].split(b"@", maxsplit=1)[0]
